@@ -185,6 +185,13 @@ class QueueDriver(InstructionGenerator):
             elif act == "ChargeQueueing":
                 if r < 0.03 and bid:
                     out.append(DispatchBaseInstruction(v.id, bid))
+                elif r >= 0.80 and len(sim.stations) > 1:
+                    # re-balancing: pulled out of this queue and sent to the other station (where it joins the back of the queue)
+                    others = [x for x in sorted(sim.stations.keys()) if x != v.vehicle_state.station_id]
+                    o = others[int(r * 1000) % len(others)]
+                    oplugs = sorted(sim.stations[o].state.keys())
+                    ousable = [c for c in oplugs if environment.chargers[c].energy_type in v.energy] or oplugs
+                    out.append(DispatchStationInstruction(v.id, o, ousable[0]))
                 elif r < 0.15:
                     # re-dispatched to (or told to charge at) the very station it is queueing at, as the built-in off-shift
                     # human driver heading home is every step: only the head of the queue may get the plug that way
@@ -197,6 +204,11 @@ class QueueDriver(InstructionGenerator):
                         out.append(DispatchBaseInstruction(v.id, bid))     # leave, to come back and queue later
                 elif r < 0.35:
                     out.append(DispatchStationInstruction(v.id, sid, plug))
+                elif r < 0.6 and len(sim.stations) > 1:
+                    o = sorted(sim.stations.keys())[1]
+                    oplugs = sorted(sim.stations[o].state.keys())
+                    ousable = [c for c in oplugs if environment.chargers[c].energy_type in v.energy] or oplugs
+                    out.append(DispatchStationInstruction(v.id, o, ousable[0]))
         if self.emit:
             from hv.tracer import project_instruction
 
@@ -365,8 +377,8 @@ def gen_queue_world(rng: random.Random, n_steps: int, variant: Optional[str] = N
     plug = rng.choice(["LEVEL_1", "LEVEL_1", "LEVEL_2"])
     stations = [{"id": "s1", "lat": c0[0], "lon": c0[1], "plugs": [(plug, 1, True)] + ([("DCFC", 1, True)] if rng.random() < 0.25 else [])}]
     bases = [{"id": "b1", "lat": near[0][0], "lon": near[0][1], "station": None, "stalls": 2}]
-    variant = variant or rng.choice(["plain", "plain", "fleet", "mixed", "two"])
-    n_v = rng.randint(4, 6) + (1 if variant == "two" else 0)
+    variant = variant or rng.choice(["plain", "plain", "fleet", "mixed", "two", "twin"])
+    n_v = rng.randint(4, 6) + (1 if variant in ("two", "twin") else 0)
     ids = [f"v{k+1}" for k in range(n_v)]
     rng.shuffle(ids)
     vehicles = []
@@ -384,6 +396,9 @@ def gen_queue_world(rng: random.Random, n_steps: int, variant: Optional[str] = N
          "stations": stations, "bases": bases, "focus": "queue"}
     if variant == "two":
         stations[0]["plugs"] = [(plug, 2, True)]          # two plugs of the one type: several can fall free in one step
+    if variant == "twin":
+        # a second one-plug station a few hundred metres away: waiting vehicles are moved from one queue to the other
+        stations.append({"id": "s2", "lat": near[1][0], "lon": near[1][1], "plugs": [(plug, 1, True)]})
     if variant == "fleet":
         # a PUBLIC station used by fleet members and fleet-less vehicles alike (or a station of the fleet all belong to)
         members = [v["id"] for v in vehicles if rng.random() < 0.5] or [vehicles[0]["id"]]
